@@ -121,6 +121,15 @@ let user_str (d : memdict) =
 let queue : logged list ref = ref []
 let cur_editor : med option ref = ref None
 let problems : string list ref = ref []
+let pending : (composition * logged) list ref = ref []
+
+let validate_pending (before : med option) (after : med option) =
+  Stdlib.List.iter
+    (fun (c, l) ->
+      let ok e = match e with Some e -> m_valid_conv e c l.l_result | None -> false in
+      if not (ok before || ok after) then problems := Printf.sprintf "INVALID-CONVERSION %s" l.l_raw :: !problems)
+    (Stdlib.List.rev !pending);
+  pending := []
 
 let conv_oracle (c : composition) (n : nat) : interval list =
   match !queue with
@@ -131,11 +140,9 @@ let conv_oracle (c : composition) (n : nat) : interval list =
       let theirs = Printf.sprintf "syms=%s gaps=%s sels=%s" l.l_syms l.l_gaps l.l_sels in
       if mine <> theirs || int_of_nat n <> l.l_nth then
         raise (Oracle_mismatch (Printf.sprintf "model asks nth=%d %s ; implementation converted %s" (int_of_nat n) mine l.l_raw));
-      (match !cur_editor with
-       | Some e ->
-           if not (m_valid_conv e c l.l_result) then
-             problems := Printf.sprintf "INVALID-CONVERSION %s" l.l_raw :: !problems
-       | None -> ());
+      (* validated after the op against the dictionary before or after it (an op may learn a
+         phrase and convert again) *)
+      pending := (c, l) :: !pending;
       l.l_result
 
 (* ---- ops ---- *)
@@ -281,9 +288,11 @@ let main args =
              queue := Stdlib.List.rev !convs;
              cur_editor := Some e;
              problems := [];
+             pending := [];
              (try
                 (match run_op e words with
                  | Lib.Ok (e', r) ->
+                     validate_pending (Some e) (Some e');
                      if !queue <> [] then
                        Printf.fprintf oc "# ORACLE-LEFTOVER case %d: %d conversions not consumed by the model\n" !caseno
                          (Stdlib.List.length !queue);
@@ -292,6 +301,7 @@ let main args =
                      queue := Stdlib.List.rev !dconv;
                      cur_editor := Some e';
                      observe oc e';
+                     validate_pending (Some e') None;
                      ed := Some e'
                  | Lib.Panic s ->
                      Printf.fprintf oc "# model panic site %d\n" (int_of_n s);
